@@ -34,6 +34,9 @@ func (i Inject) arg() string {
 	case "kill":
 		return fmt.Sprintf("inject=%s:signal=SIGKILL:when=%d", i.Syscall, i.When)
 	case "stop":
+		if i.When <= 0 {
+			return fmt.Sprintf("inject=%s:signal=SIGSTOP", i.Syscall) // after every such call
+		}
 		return fmt.Sprintf("inject=%s:signal=SIGSTOP:when=%d", i.Syscall, i.When)
 	default:
 		return fmt.Sprintf("inject=%s:error=%s:when=%d", i.Syscall, i.Errno, i.When)
